@@ -3,7 +3,7 @@
 (* `mos format` for kind "cmd") is judged here.                                                                 *)
 (*                                                                                                              *)
 (* record kind "fmt":  [id, kind, hasModel, file (Format.tla shape; empty when hasModel = FALSE), opts, ok,      *)
-(*    panic, reparse_ok, asm, asm_same, ast, ast_fmt, comments, comments_fmt, lex, lex_fmt, dropgap (texts),     *)
+(*    panic, reparse_ok, asm, asm_same, ast, ast_fmt, comments, comments_fmt, lex, lex_fmt, dropgap, dropimp (texts),     *)
 (*    fmt, fmt2, lines, lines2 (Seq([n, s, q, lc, lo, cs, el, cont]))]                                                              *)
 (* record kind "cmd":  [id, kind, parseError, files: Seq([name, before, after, expect])]   (FormatCmd.tla)        *)
 (*                                                                                                              *)
@@ -48,6 +48,8 @@ C12Rows(r) ==
                 ELSE IF SameLineWitness(r) THEN <<V(r.id, "deviation", "SameLineStatementsGlued", meaning)>>
                 ELSE <<V(r.id, "violation", "", meaning)>>
        rowsC == IF lost = <<>> THEN <<>>
+                ELSE IF "ImportArgGapDropped" \in Devs /\ Range(lost) \subseteq Range(r.dropimp)
+                     THEN <<V(r.id, "deviation", "ImportArgGapDropped", "comment in front of a named import argument deleted: " \o lost[1])>>
                 ELSE IF "OpenBraceGapDropped" \in Devs /\ Range(lost) \subseteq Range(r.dropgap) THEN <<V(r.id, "deviation", "OpenBraceGapDropped", "comment in front of a block's opening brace deleted: " \o lost[1])>>
                 ELSE <<V(r.id, "violation", "", "comment lost or reordered: " \o (CHOOSE c \in Range(lost) \ Range(r.dropgap) : TRUE))>>
        (* tier 2 *)
